@@ -26,7 +26,7 @@ Seen(ev, name) ==
 Step(ev) ==
   CASE ev.a = "init"     -> ResetTo(ev.arg.kind)
     [] ev.a = "set"      -> SetX(ev.arg.o + 1, ev.arg.name, ArgV(ev), ev.obs.ret, Seen(ev, ev.arg.name))
-    [] ev.a = "reset"    -> Reset(ev.arg.o + 1, ev.arg.name)
+    [] ev.a = "reset"    -> Reset(ev.arg.o + 1, ev.arg.name, ev.arg.f)
     [] ev.a = "auto"     -> Auto(ev.arg.o + 1, ArgV(ev))
     [] ev.a = "get"      -> GetX(ev.arg.o + 1, ev.arg.name, ev.obs.ret, ev.obs.cname)
     [] ev.a = "copy"     -> Copy(ev.arg.o + 1, ev.arg.from + 1, ev.arg.mode)
@@ -34,12 +34,26 @@ Step(ev) ==
     [] ev.a = "fini"     -> Fini(ev.arg.o + 1)
     [] ev.a = "cparse"   -> CParseX(ev.arg.c, ev.obs.ret, ev.obs.col)
     [] ev.a = "cprint"   -> CPrint(ev.arg.c)
+    [] ev.a = "cset"     -> CSet(ev.arg.r, ev.arg.g, ev.arg.b)
+    [] ev.a = "calpha"   -> CAlpha(ev.arg.v)
+    [] ev.a = "lset"     -> LSet(ev.arg.w, ev.arg.st, ev.arg.sy, ev.arg.sz)
+    [] ev.a = "sset"     -> SSet(ev.arg.o + 1, ev.arg.m, ev.arg.c, ev.arg.n)
     [] OTHER             -> FALSE
+
+(* how the specification classifies the recorded set calls (vacuity figures) *)
+ClassNo(ev) ==
+  IF ev.a # "set" THEN 6
+  ELSE LET i == SetResolve(kind, ev.arg.name) IN
+       IF i = 0 THEN 5
+       ELSE LET c == Den(Props(kind)[i].pt, ArgV(ev)).ret IN
+            CASE c = "ok" -> 1 [] c = "refused" -> 2 [] c = "either" -> 3 [] OTHER -> 4
+Bump(ev) == LET k == ClassNo(ev) IN TLCSet(k, TLCGet(k) + 1)
 
 Matches(ev) == \A k \in DOMAIN obs'.exp :
                   k \in DOMAIN ev.obs /\ ((k = "ret" /\ obs'.exp[k] = "any") \/ obs'.exp[k] = ev.obs[k])
 
 TraceInit ==
+  /\ \A k \in 1..6 : TLCSet(k, 0)
   /\ l = 1 /\ kind = "axis" /\ ops = 0 /\ nid = 1
   /\ t2 = <<Def2("axis"), Def2("axis")>> /\ t1 = <<Def1("axis"), Def1("axis")>>
   /\ obs = [a |-> "none", arg |-> [x |-> 0], tgt |-> "", den |-> <<>>, exp |-> [ret |-> "ok"]]
@@ -49,12 +63,13 @@ TraceNext ==
   /\ l' = l + 1
   /\ UNCHANGED ops
   /\ LET ev == TraceLog[l] IN
-       Step(ev) /\ Matches(ev)
+       Step(ev) /\ Matches(ev) /\ Bump(ev)
 
 TraceSpec == TraceInit /\ [][TraceNext]_<<vars, l>>
 
 TraceAccepted ==
   LET n == TLCGet("stats").diameter - 1 IN
+  /\ PrintT(<<"CLASSES", TLCGet(1), TLCGet(2), TLCGet(3), TLCGet(4), TLCGet(5), TLCGet(6)>>)
   /\ PrintT(<<"MATCHED", n>>)
   /\ n = Len(TraceLog)
 =============================================================================
